@@ -200,6 +200,14 @@ where
             break;
         }
     }
+    // 2c. the global one-thread pool instead of a sized one
+    if best.knob("pool", 1) > 1 && execs < budget_execs {
+        let mut cand = best.clone();
+        cand.knobs.insert("pool".to_string(), 1);
+        if try_plan(&cand, &mut execs) {
+            best = cand;
+        }
+    }
     // 3. simpler knobs
     if best.lru != 0 && execs < budget_execs {
         for cap in [4096usize] {
